@@ -155,6 +155,7 @@ impl Check for C20 {
             Phase { name: "6-8 extras in 16 random orders; both orderings", cases: scale(if q { 15000 } else { 100000 }, b), exhaustive: false },
             Phase { name: "every pair of palette labels as the two extras, both initial orders, all 16 typed-field subsets", cases: (extra_palette().len() * extra_palette().len()) as u64, exhaustive: true },
             Phase { name: "keys obtained by decoding styled wire forms", cases: scale(if q { 25000 } else { 200000 }, b), exhaustive: false },
+            Phase { name: "keys with 20-80 extras of mixed encoded lengths in random and adversarial (descending, length-interleaved) initial orders", cases: scale(if q { 600 } else { 20000 }, b), exhaustive: false },
         ]
     }
     fn run_case(&self, ctx: &mut Ctx, phase: usize, idx: u64) {
@@ -195,6 +196,42 @@ impl Check for C20 {
                 for bits in 0..16 {
                     check_key(ctx, &key_with(bits, vec![(a.clone(), Item::int(1)), (b.clone(), Item::Null)]));
                 }
+            }
+            4 => {
+                let n = 20 + ctx.rng.below(61);
+                let mut ls: Vec<MLabel> = Vec::new();
+                let base: i64 = *ctx.rng.pick(&[6, 20, 100, 250, 65000, -1, -20, -250, -65000]);
+                while ls.len() < n {
+                    let l = match ctx.rng.below(6) {
+                        0 => MLabel::Text(format!("t{}", ctx.rng.below(200))),
+                        1 => pal[ctx.rng.below(pal.len())].clone(),
+                        _ => MLabel::Int(base + if base < 0 { -(ls.len() as i64) * 3 } else { ls.len() as i64 * 3 } + ctx.rng.range(0, 2)),
+                    };
+                    if matches!(&l, MLabel::Int(i) if (0..=5).contains(i)) || ls.contains(&l) {
+                        continue;
+                    }
+                    ls.push(l);
+                }
+                match ctx.rng.below(4) {
+                    0 => ls.sort_by_key(|l| std::cmp::Reverse(rcbor::det(&l.item()))),
+                    1 => ls.sort_by_key(|l| rcbor::det(&l.item())),
+                    2 => {
+                        // interleave long and short encodings
+                        ls.sort_by_key(|l| rcbor::det(&l.item()).len());
+                        let (a, b) = ls.split_at(ls.len() / 2);
+                        ls = a.iter().zip(b.iter().rev()).flat_map(|(x, y)| [y.clone(), x.clone()]).chain(if n % 2 == 1 { vec![b[0].clone()] } else { vec![] }).collect();
+                        ls.dedup();
+                    }
+                    _ => ctx.rng.shuffle(&mut ls),
+                }
+                let mut uniq: Vec<MLabel> = Vec::new();
+                for l in ls {
+                    if !uniq.contains(&l) {
+                        uniq.push(l);
+                    }
+                }
+                let extras: Vec<(MLabel, Item)> = uniq.into_iter().enumerate().map(|(i, l)| (l, Item::int(i as i64))).collect();
+                check_key(ctx, &key_with(idx % 16, extras));
             }
             _ => {
                 let k = gen::gen_key(&mut ctx.rng);
